@@ -148,7 +148,9 @@ class Prop:
         stride = 149 if quick else 26
         j = 0
         for g in groups:
-            if g["n"] < 2:
+            # (no mutation tails on the class-mix sources: a Tree.copy() of a subclass that overrides calc_data_id is again of that
+            # class, the model gives every copy the default id callback - later add_child(data) calls would differ for that reason)
+            if g["n"] < 2 or g["label"].startswith("classes"):
                 continue
             for a in g["alts"]:
                 j += 1
